@@ -1,5 +1,8 @@
 // search.go: failing-input search legs of hx_c10 (active only with -search).
 //
+// The legs that run in the NORMAL tiers (key / value representation, held listings, re-entrant actions, zero value) are in
+// legs3.go; they share this file's engine (meng) and oracle.
+//
 // The normal tiers reach 100 000 random insertions once and otherwise stay below 10 000 entries, with the -1/0/+1
 // comparator. The legs:
 //
@@ -48,7 +51,18 @@ var curSearch atomic.Value // the scase being run (for the hang report)
 // key types with comparators that return magnitudes
 type DK int64
 
-func (a DK) CompareTo(o collections.Comparable) int { return int(int64(a) - int64(o.(DK))) }
+func (a DK) CompareTo(o collections.Comparable) int { return satInt(int64(a) - int64(o.(DK))) }
+
+// satInt: the int64 as an int, saturated where int is 32 bits wide (GOARCH=386), so that the sign survives.
+func satInt(x int64) int {
+	if int64(int(x)) == x {
+		return int(x)
+	}
+	if x < 0 {
+		return -int(^uint(0)>>1) - 1
+	}
+	return int(^uint(0) >> 1)
+}
 
 type BK int64
 
@@ -56,9 +70,9 @@ func (a BK) CompareTo(o collections.Comparable) int {
 	b := o.(BK)
 	switch {
 	case a < b:
-		return -(1 << 40)
+		return satInt(-(1 << 40))
 	case a > b:
-		return 1 << 40
+		return satInt(1 << 40)
 	}
 	return 0
 }
@@ -69,9 +83,9 @@ func (a XK) CompareTo(o collections.Comparable) int {
 	b := o.(XK)
 	switch {
 	case a < b:
-		return math.MinInt64
+		return satInt(math.MinInt64)
 	case a > b:
-		return math.MaxInt64
+		return satInt(math.MaxInt64)
 	}
 	return 0
 }
@@ -90,6 +104,13 @@ type meng struct {
 	maxN   int
 	maxH   int
 	asked  []int64
+	// value diversity (legs3.go): vals maps a value stamp to the dynamic value stored (nil = the stamp itself)
+	vals func(int) interface{}
+	made map[int]interface{}
+	defv interface{} // the default handed to GetOrDefault (nil = -7)
+	held []heldOut   // Keys()/Values() results kept for the held-output recheck (legs3.go)
+	hold bool
+	muts int
 }
 
 func newMeng(kind string) *meng {
@@ -159,7 +180,7 @@ func (e *meng) put(k int64) {
 	e.val++
 	v := e.val
 	var old interface{}
-	if !e.call("put", func() { old = e.m.Put(e.mk(k), v) }) {
+	if !e.call("put", func() { old = e.m.Put(e.mk(k), e.valOf(v)) }) {
 		return
 	}
 	ro, had := e.ref[k]
@@ -167,7 +188,8 @@ func (e *meng) put(k int64) {
 	if !had {
 		e.dirty = true
 	}
-	if had != (old != nil) || (had && old != interface{}(ro)) {
+	e.mutated()
+	if (!had && old != nil) || (had && !e.valIs(old, ro)) {
 		e.fail("put-result", "Put(%d,%d) returned %v, the sorted map says present=%v old=%d", k, v, old, had, ro)
 		return
 	}
@@ -184,6 +206,7 @@ func (e *meng) rm(k int64) {
 		delete(e.ref, k)
 		e.dirty = true
 	}
+	e.mutated()
 	if got != had {
 		e.fail("remove-result", "Remove(%d) returned %v, the sorted map says %v", k, got, had)
 		return
@@ -197,6 +220,7 @@ func (e *meng) clear() {
 	}
 	e.ref = map[int64]int{}
 	e.dirty = true
+	e.mutated()
 	e.sizeOK("clear")
 }
 
@@ -207,6 +231,9 @@ func (e *meng) showEntry(en *treemap.Entry) string {
 		return "none"
 	}
 	k, _ := e.un(en.GetKey())
+	if e.vals != nil {
+		return fmt.Sprintf("%d:%s", k, showVal(en.GetValue()))
+	}
 	return fmt.Sprintf("%d:%v", k, en.GetValue())
 }
 
@@ -219,7 +246,7 @@ func (e *meng) entryIs(en *treemap.Entry, kk treemap.KeyType, want int64, wok bo
 	}
 	a, ok1 := e.un(en.GetKey())
 	b, ok2 := e.un(kk)
-	return ok1 && ok2 && a == want && b == want && en.GetValue() == interface{}(e.ref[want])
+	return ok1 && ok2 && a == want && b == want && e.valIs(en.GetValue(), e.ref[want])
 }
 
 func (e *meng) qGet(k int64) {
@@ -228,18 +255,18 @@ func (e *meng) qGet(k int64) {
 	if !e.call("get", func() {
 		v, ok = e.m.Get(e.mk(k))
 		has = e.m.Contains(e.mk(k))
-		d = e.m.GetOrDefault(e.mk(k), -7)
+		d = e.m.GetOrDefault(e.mk(k), e.defOf())
 	}) {
 		return
 	}
 	rv, rok := e.ref[k]
 	switch {
-	case ok != rok || (ok && v != interface{}(rv)):
+	case ok != rok || (ok && !e.valIs(v, rv)):
 		e.fail("get", "Get(%d) = (%v,%v), the sorted map says (%d,%v)", k, v, ok, rv, rok)
 	case has != rok:
 		e.fail("contains", "Contains(%d) = %v, the sorted map says %v", k, has, rok)
-	case (rok && d != interface{}(rv)) || (!rok && d != interface{}(-7)):
-		e.fail("get-or-default", "GetOrDefault(%d,-7) = %v, the sorted map says present=%v value=%d", k, d, rok, rv)
+	case (rok && !e.valIs(d, rv)) || (!rok && !identical(d, e.defOf())):
+		e.fail("get-or-default", "GetOrDefault(%d,default) = %s, the sorted map says present=%v value=%s", k, showVal(d), rok, e.showStamp(rv))
 	}
 }
 
@@ -324,11 +351,12 @@ func (e *meng) qKeys() {
 			e.fail("keys", "Keys()[%d] = %v, the sorted map has %d there (of %d)", i, ks[i], w, len(want))
 			return
 		}
-		if vs[i] != interface{}(e.ref[w]) {
-			e.fail("values", "Values()[%d] = %v, the sorted map has %d (key %d) there", i, vs[i], e.ref[w], w)
+		if !e.valIs(vs[i], e.ref[w]) {
+			e.fail("values", "Values()[%d] = %s, the sorted map has %s (key %d) there", i, showVal(vs[i]), e.showStamp(e.ref[w]), w)
 			return
 		}
 	}
+	e.keep(ks, vs)
 }
 
 // qTraversals: in-order and Foreach = the sorted listing; pre/post-order visit exactly the entries; height bound.
@@ -341,7 +369,7 @@ func (e *meng) qTraversals() {
 		ok := e.call(name, func() {
 			walk(func(k treemap.KeyType, v interface{}) {
 				kk, isK := e.un(k)
-				if rv, in := e.ref[kk]; !isK || !in || v != interface{}(rv) {
+				if rv, in := e.ref[kk]; !isK || !in || !e.valIs(v, rv) {
 					if !bad {
 						bad = true
 						e.fail(name, "%s traversal visits %v:%v, the sorted map holds (%d, present %v) for that key", name, k, v, rv, in)
@@ -511,7 +539,7 @@ func (e *meng) walk(kind string, limit int, sel func(k int64) bool) {
 				e.fail("iter-next:"+kind+":"+cls, "Next() number %d of the %s iterator returned key %d, the sorted map says the next entry in that direction is %d (%d entries at creation, %d removed through it so far)", i+1, kind, k, w, len(want), removed)
 				return
 			}
-			if kind != "key" && kind != "dkey" && v != interface{}(e.ref[w]) {
+			if kind != "key" && kind != "dkey" && !e.valIs(v, e.ref[w]) {
 				e.fail("iter-next:"+kind+":wrong", "Next() number %d of the %s iterator returned value %v, the sorted map has %d:%d there", i+1, kind, v, w, e.ref[w])
 				return
 			}
@@ -520,6 +548,7 @@ func (e *meng) walk(kind string, limit int, sel func(k int64) bool) {
 				delete(e.ref, w)
 				e.dirty = true
 				removed++
+				e.mutated()
 			}
 			if i&1023 == 0 {
 				atomic.AddInt64(&progress, 1)
@@ -621,7 +650,7 @@ func (e *meng) report(r *hxlib.Run, c scase) bool {
 	}
 	c.FailAt = e.n
 	f := e.fails[0]
-	r.Fail(f.key, fmt.Sprintf("search leg %s/%s (n=%d seed=%d): %s", c.Leg, c.Variant, c.N, c.Seed, f.what), c)
+	r.Fail(f.key, fmt.Sprintf("leg %s/%s (n=%d seed=%d): %s", c.Leg, c.Variant, c.N, c.Seed, f.what), c)
 	return true
 }
 
@@ -911,6 +940,8 @@ func runSearchCase(c scase) *meng {
 		return runScale(c)
 	case "period":
 		return runPeriod(c)
+	case "keyrep": // legs3.go (normal tiers)
+		return runKeyrep(c)
 	}
 	e := newMeng("")
 	e.fail("harness", "unknown search leg %q", c.Leg)
